@@ -16,13 +16,42 @@
      wext w w'        = spent and signature tables of w' extend those of w (nothing removed or altered)
      same_but_calls   = nothing changed but the call counter
      settled w h      = the backend reports the own invoice with payment hash h as settled
+     ordered b a s p  = on every path of program p (for every response, so for every fault and cut) an event `a` is preceded by an event `b`
 
    total_balance_exact needs redeemed <= issued (unforgeability: every spent proof was issued) and totals below 2^64.
 *)
 From Coq Require Import ZArith List Bool.
-From Verif Require Import Model Sem InvDb InvSwap InvMint InvMelt Corollaries Queries Footprint HRel Global GlobalQuote GlobalValue GlobalErr GlobalQuery GlobalMelt GlobalKeys Cuts.
+From Verif Require Import Model Sem InvDb InvSwap InvMint InvMelt Corollaries Queries Footprint HRel Global GlobalQuote GlobalValue GlobalErr GlobalQuery GlobalMelt GlobalKeys Cuts CutOrder Conc Races GlobalBalance.
 Import ListNotations.
 Open Scope Z_scope.
+
+Theorem C16_balance_never_negative : forall (cfg : config) (h : list op),
+       clients_honest cfg world0 h [] ->
+       let w := reach cfg h in
+       vR w + vP w <= vS w /\
+       (vS w < two64 ->
+        exists w' : world, run total_balance no_fault w = (w', Done (Ok (vS w - vR w))) /\ 0 <= vS w - vR w).
+Proof. exact @balance_never_negative. Qed.
+Print Assumptions C16_balance_never_negative.
+
+Theorem C16_step_bi : forall (cfg : config) (w : world) (o : op) (issued : list entry),
+       honest_client issued o ->
+       BI issued w -> BI (issued_by o (snd (step cfg no_fault w o)) ++ issued) (fst (step cfg no_fault w o)).
+Proof. exact @step_bi. Qed.
+Print Assumptions C16_step_bi.
+
+Theorem C16_binv_bound : forall (w : world) (issued : list entry), Good w -> BInv w issued -> vR w + vP w <= vS w.
+Proof. exact @binv_bound. Qed.
+Print Assumptions C16_binv_bound.
+
+Theorem C16_honest_history_ok : clients_honest {| c_max_mint := 0; c_max_melt := 0; c_max_balance := 0; c_mpp := false; c_feepct := 2 |}
+         world0 honest_history [] /\
+       (let w :=
+          reach {| c_max_mint := 0; c_max_melt := 0; c_max_balance := 0; c_mpp := false; c_feepct := 2 |}
+            honest_history in
+        (vS w, vR w, vP w) = (128, 96, 0)).
+Proof. exact @honest_history_ok. Qed.
+Print Assumptions C16_honest_history_ok.
 
 Theorem C16_issued_view_total : forall d : db,
        tsum (map snd (sum_by_ks (map (fun s : srow => (s_ks s, s_amount s)) (d_sigs d)) [])) = issued_total d.
